@@ -215,7 +215,10 @@ func cliConcurrentScenarios() []cliScenario {
 		// S13 re-transmission of A with a write fault || response(A) || Start(B) picking up the recycled object
 		{Setup: []cliEv{ev("start", 0), {K: "failwrite"}}, Threads: [][]cliEv{nil, {tickAfter}, {ev("resp", 0)}, {ev("start", 1)}}, Epilogue: "drain+close"},
 		// S14 the id A was used and answered before; a new Start(A) that the agent refuses || a late duplicate of the old response
-		{Setup: []cliEv{ev("start", 0), ev("resp", 0)}, Threads: [][]cliEv{nil, {{K: "failagent"}, ev("start", 0)}, {ev("resp", 0)}}, Epilogue: "drain+close"},
+		{Setup: []cliEv{ev("start", 0), ev("resp", 0)}, Threads: [][]cliEv{nil, {{K: "failagent"}, ev("start", 0)}, {ev("resp", 0)}}, Epilogue: "drain+close", Probe: true, Opts: cliOpts{PoolFanout: true}},
+		// S16 the id A was used and answered before; Start(A) whose first write fails (it releases the transaction and
+		// stops it at the agent) || a late duplicate of the old response || another Start(A): the stop may hit the successor
+		{Setup: []cliEv{ev("start", 0), ev("resp", 0)}, Threads: [][]cliEv{nil, {{K: "failwrite"}, ev("start", 0)}, {ev("resp", 0)}, {ev("start", 0)}}, DupIDs: true, Epilogue: "drain+close"},
 		// S15 the same with Close as the reason for the refusal
 		{Setup: []cliEv{ev("start", 0), ev("resp", 0)}, Threads: [][]cliEv{nil, {ev("start", 0)}, {ev("resp", 0)}, {{K: "close"}}}, Epilogue: "close"},
 		// S10 Do(A) || resp(A) then Do(A) again on the recycled wait handler
